@@ -166,6 +166,8 @@ def make_op(o, prog, regs, numeric=None):
         if name == "Interferometer":
             return ops.Interferometer(np.identity(n_, dtype=complex) if o["useed"] == -1 else seeded_unitary(o["useed"], n_), **kw)
         if name == "GaussianTransform":
+            if o.get("mat") is not None:
+                return ops.GaussianTransform(np.array(o["mat"], dtype=float), **kw)
             return ops.GaussianTransform(seeded_symplectic(o["useed"], n_), **kw)
         import strawberryfields as sf
         S = seeded_symplectic(o["useed"], n_)
